@@ -228,7 +228,7 @@ func (r *c17Runner) run(cs c17Case) (string, int, error) {
 }
 
 // end-to-end iteration on the emulator alone: the property itself
-func (r *c17Runner) iterate(g *rand.Rand, target string, stable []string, churn []string, count int) (string, error) {
+func (r *c17Runner) iterate(g *rand.Rand, target string, stable []string, churn []string, count int, wipe bool) (string, error) {
 	do := func(args ...string) (*Node, error) { return r.conn.Do(4*time.Second, bs(args...)...) }
 	if _, err := do("FLUSHALL"); err != nil {
 		return "", err
@@ -300,6 +300,19 @@ func (r *c17Runner) iterate(g *rand.Rand, target string, stable []string, churn 
 		if calls > 4*(len(stable)+len(churn))+64 {
 			return fmt.Sprintf("iteration did not finish within %d calls", calls), nil
 		}
+		if wipe && calls == 2 {
+			// everything disappears in the middle of the iteration: it must still finish
+			for _, m := range stable {
+				rem(m)
+			}
+			for m := range live {
+				rem(m)
+			}
+			live = map[string]bool{}
+			stable = nil
+			churn = churn[:1]
+			continue
+		}
 		// churn between calls: insert and delete other elements (grows and shrinks the table)
 		for k := 0; k < g.Intn(12); k++ {
 			m := churn[g.Intn(len(churn))]
@@ -351,6 +364,11 @@ func genC17Case(g *rand.Rand, size int) c17Case {
 		}
 	}
 	cs.Ops = append(cs.Ops, c17Op{Kind: "layout"}, c17Op{Kind: "scan", Cursor: 0, Count: 7})
+	// finally remove everything: an iteration that was under way must still come to an end
+	for m := range live {
+		cs.Ops = append(cs.Ops, c17Op{Kind: "rem", Member: m})
+	}
+	cs.Ops = append(cs.Ops, c17Op{Kind: "scan", Cursor: uint64(1 + g.Intn(1<<12)), Count: 1 + g.Intn(5)}, c17Op{Kind: "scan", Cursor: 0, Count: 3})
 	return cs
 }
 
@@ -452,7 +470,7 @@ func runC17(cfg runCfg, res *Result) error {
 		}
 		target := []string{"set", "keys", "hash"}[g.Intn(3)]
 		count := 1 + g.Intn(12)
-		why, err := r.iterate(g, target, stable, churn, count)
+		why, err := r.iterate(g, target, stable, churn, count, g.Intn(6) == 0)
 		if err != nil {
 			return err
 		}
